@@ -91,7 +91,7 @@ def main():
     for cfg in ("GOARCH=386", "-tags verif"):
         rc, out = results[cfg]
         keys = violation_keys(out, pid)
-        head = out.splitlines()[0] if out else ""
+        head = next((l for l in out.splitlines() if l.startswith("property ")), out.splitlines()[0] if out else "")
         extra_cfg.append({"config": cfg, "exit": rc, "summary": head, "violations": sorted(keys)})
         print("config %-12s exit=%d %s" % (cfg, rc, head))
         if rc != 0:
